@@ -52,6 +52,8 @@ var c01Cells = []struct{ name, prog string }{
 	// binding
 	{"let.parallel", "(let ((vx 1)) (let ((vx 2) (vy vx)) (vtr vy)))"},
 	{"let.init-order", "(let ((va (vtr 1)) (vb (vtr 2)) vc (vd)) (list va vb vc vd))"},
+	{"letstar.empty-bindings", "(let* () (vtr 6))"},
+	{"let.empty-bindings", "(let () (vtr 6))"},
 	{"letstar.sequential", "(let ((vx 1)) (let* ((vx 2) (vy vx)) (vtr vy)))"},
 	{"letstar.closure-later-binding", "(let ((vz 9)) (let* ((vx 1) (vf (lambda (vq) vz)) (vz 2)) (funcall vf 0)))"},
 	{"setq.pairs", "(let ((va 1) (vb 2)) (list (setq va (vtr 10) vb (vtr (+ va 1))) va vb (setq)))"},
@@ -68,8 +70,9 @@ var c01Cells = []struct{ name, prog string }{
 	{"defun.free-var-lexical", "(defun c01fv# (vz) (vtr vq#)) (setq vq# 1) (let ((vq# 2)) (c01fv# 0))"},
 	{"defun.recursion", "(defun c01fact# (vn) (if (< vn 2) 1 (* vn (c01fact# (- vn 1))))) (vtr (c01fact# 5))"},
 	{"defun.late-binding", "(defun c01a# (vz) (c01b# vz)) (defun c01b# (vz) (vtr (+ vz 1))) (c01a# 1)"},
-	{"dlambda.in-defun", "(defun c01dl# (vx) ((lambda (vy) vx) 1)) (vtr (c01dl# 5))"},
-	{"dlambda.in-defun-arg", "(defun c01dl# (vx) (vtr ((lambda (vy) (vtr vy) vx) 1))) (c01dl# 5)"},
+	{"dlambda.in-defun", "(defun c01dl# (vx#) ((lambda (vy) vx#) 1)) (vtr (c01dl# 5))"},
+	{"dlambda.in-defun-arg", "(defun c01dl# (vx#) (vtr ((lambda (vy) (vtr vy) vx#) 1))) (c01dl# 5)"},
+	{"dlambda.in-lambda", "(funcall (lambda (vx#) (vtr ((lambda (vy) vx#) 1))) 5)"},
 	{"dlambda.call", "((lambda (va vb) (vtr (- va vb))) (vtr 5) (vtr 3))"},
 	// loops
 	{"dolist.var-nil-in-result", "(dolist (vx (quote (1 2)) (vtr vx)) (vtr vx))"},
@@ -124,7 +127,19 @@ func runC01(c *lib.Ctx) {
 }
 
 // evRun runs sweep and composite cases through the model and the implementation and reports.
+// evMix: the shared Rng is an additive-step generator seeded with seed*step, so consecutive seeds
+// give the same stream shifted by one draw; scramble the seed first (murmur finaliser).
+func evMix(x uint64) uint64 {
+	x ^= x >> 33
+	x *= 0xff51afd7ed558ccd
+	x ^= x >> 33
+	x *= 0xc4ceb9fe1a85ec53
+	x ^= x >> 33
+	return x
+}
+
 func evRun(c *lib.Ctx, sweep []evCase, nComposite int, ctl bool, avoid func(cell, exit string) bool, relies []string) {
+	c.Rng = lib.NewRng(evMix(c.Seed + 0x5eed))
 	cases := append([]evCase{}, sweep...)
 	hist := map[string]int{}
 	if v := os.Getenv("VERIF_EV_N"); v != "" { // debugging aid: override the number of composite cases
@@ -132,7 +147,9 @@ func evRun(c *lib.Ctx, sweep []evCase, nComposite int, ctl bool, avoid func(cell
 	}
 	for i := 0; i < nComposite; i++ {
 		src := evGenProgram(c.Rng, i, ctl, avoid, hist)
-		cases = append(cases, evNewCase(src, "", "", "composite"))
+		cs := evNewCase(src, "", "", "composite")
+		cs.prefix = fmt.Sprintf("k%d", i)
+		cases = append(cases, cs)
 	}
 	reqs := make([]string, len(cases))
 	for i, cs := range cases {
@@ -146,6 +163,8 @@ func evRun(c *lib.Ctx, sweep []evCase, nComposite int, ctl bool, avoid func(cell
 	c.Ev.Coverage["model_wall_s"] = time.Since(t0).Seconds()
 	agree, setAside := 0, 0
 	sweepFail := []map[string]string{}
+	var implWall, shrinkWall time.Duration
+	shrunk := 0
 	for i, cs := range cases {
 		model := evParseReply(replies[i])
 		c.Ev.Hist("model_outcome", model.kind)
@@ -159,6 +178,7 @@ func evRun(c *lib.Ctx, sweep []evCase, nComposite int, ctl bool, avoid func(cell
 		}
 		t1 := time.Now()
 		impl := evRunImpl(cs)
+		implWall += time.Since(t1)
 		if dt := time.Since(t1); dt > 300*time.Millisecond && os.Getenv("VERIF_EV_DEBUG") != "" {
 			fmt.Fprintf(os.Stderr, "slow case (%v, %d steps): %s\n   impl %s\n   model %s\n", dt, evSteps, cs.src, impl, model)
 		}
@@ -206,13 +226,13 @@ func evRun(c *lib.Ctx, sweep []evCase, nComposite int, ctl bool, avoid func(cell
 				continue
 			}
 			c.Ev.Count("composite_disagreements", 1)
-			t2 := time.Now()
-			min := evShrink(c, cs, aspect)
-			if os.Getenv("VERIF_EV_DEBUG") != "" {
-				fmt.Fprintf(os.Stderr, "shrink took %v: %s\n  -> %s\n", time.Since(t2), cs.src, min.src)
+			min, mi, mm := cs, impl, model
+			if shrunk < 4 { // shrinking is bounded per run; later disagreements are reported as found
+				shrunk++
+				t2 := time.Now()
+				min, mi, mm = evShrink(c, cs, aspect, impl, model)
+				shrinkWall += time.Since(t2)
 			}
-			mi := evRunImpl(min)
-			mm := evParseReply(c.Model([]string{min.request()})[0])
 			sig := fmt.Sprintf("composite form=%s aspect=%s", head, aspect)
 			rm := evReplayMap(min, mi, mm, relies)
 			rm["unshrunk_program"] = cs.src
@@ -229,6 +249,8 @@ func evRun(c *lib.Ctx, sweep []evCase, nComposite int, ctl bool, avoid func(cell
 		fh[k] = hist[k]
 	}
 	c.Ev.Coverage["hist_generated_forms"] = fh
+	c.Ev.Coverage["impl_wall_s"] = implWall.Seconds()
+	c.Ev.Coverage["shrink_wall_s"] = shrinkWall.Seconds()
 	c.Ev.Coverage["sweep_failures_not_listed"] = sweepFail
 	c.Ev.Coverage["traces_validated_against_impl"] = len(cases) - setAside
 	c.Ev.Coverage["agreements"] = agree
@@ -264,8 +286,10 @@ func bucket(n int) string {
 }
 
 // evShrink: delta-debugging by subterm replacement. A candidate is kept when the model still makes
-// a claim, the implementation still disagrees with the same aspect, and it is smaller.
-func evShrink(c *lib.Ctx, cs evCase, aspect string) evCase {
+// a claim, the implementation still disagrees with the same aspect, and it is smaller. Because the
+// interpreter keeps global state per name (functions, variables created on first sight), every
+// candidate is run under fresh identifiers.
+func evShrink(c *lib.Ctx, cs evCase, aspect string, impl, model evObs) (evCase, evObs, evObs) {
 	cur := cs
 	budget := 1200 // implementation runs
 	for round := 0; round < 40 && budget > 0; round++ {
@@ -277,8 +301,13 @@ func evShrink(c *lib.Ctx, cs evCase, aspect string) evCase {
 			cands = cands[:400]
 		}
 		reqs := make([]string, len(cands))
-		for i, cd := range cands {
-			reqs[i] = cd.request()
+		for i := range cands {
+			if cs.prefix != "" {
+				np := fmt.Sprintf("%sr%dx%dx", cs.prefix, round, i)
+				forms := evRename(cands[i].forms, cur.prefix, np)
+				cands[i] = evCase{src: sxText(forms), forms: forms, kind: "shrink", prefix: np}
+			}
+			reqs[i] = cands[i].request()
 		}
 		replies := c.Model(reqs)
 		found := false
@@ -294,8 +323,8 @@ func evShrink(c *lib.Ctx, cs evCase, aspect string) evCase {
 			if budget < 0 {
 				break
 			}
-			if evAspect(evRunImpl(cd), m) == aspect {
-				cur, found = cd, true
+			if o := evRunImpl(cd); evAspect(o, m) == aspect {
+				cur, impl, model, found = cd, o, m, true
 				break
 			}
 		}
@@ -303,7 +332,37 @@ func evShrink(c *lib.Ctx, cs evCase, aspect string) evCase {
 			break
 		}
 	}
-	return cur
+	return cur, impl, model
+}
+
+// evRename gives every generated identifier (they all contain the case prefix) a new prefix.
+func evRename(forms []*sx, prefix, np string) []*sx {
+	var ren func(x *sx) *sx
+	ren = func(x *sx) *sx {
+		switch x.k {
+		case 'y':
+			if strings.Contains(x.s, prefix) {
+				return &sx{k: 'y', s: strings.Replace(x.s, prefix, np, 1)}
+			}
+			return x
+		case 'l':
+			nl := make([]*sx, len(x.l))
+			for i, e := range x.l {
+				nl[i] = ren(e)
+			}
+			var t *sx
+			if x.tail != nil {
+				t = ren(x.tail)
+			}
+			return &sx{k: 'l', l: nl, tail: t}
+		}
+		return x
+	}
+	out := make([]*sx, len(forms))
+	for i, f := range forms {
+		out[i] = ren(f)
+	}
+	return out
 }
 
 func evShrinkCandidates(cs evCase) []evCase {
@@ -318,7 +377,7 @@ func evShrinkCandidates(cs evCase) []evCase {
 			n += f.size()
 		}
 		if n < total && len(forms) > 0 {
-			out = append(out, evCase{src: sxText(forms), forms: forms, kind: "shrink"})
+			out = append(out, evCase{src: sxText(forms), forms: forms, kind: "shrink", prefix: cs.prefix})
 		}
 	}
 	// drop a top-level form
